@@ -11,9 +11,28 @@ def sc(v):
     return 'c' + to32(v % L).hex()
 
 
+class _Proxy:
+    def __init__(self, ctx, add):
+        self._c, self.add = ctx, add
+
+    def __getattr__(self, k):
+        return getattr(self._c, k)
+
+
 def gen(ctx, size):
     rng = ctx.rng
     E = lambda v: [to32(v % L).hex()]
+    _add = ctx.add
+
+    def add(op, *a, **kw):
+        # every canonical-bytes decoding is also asked of the ff::PrimeField constructors (same accept set, same value)
+        rid = _add(op, *a, **kw)
+        if op == 'sc.canon' and not a[0].startswith('$'):
+            ok = kw['expect'] != ['none']
+            _add('gp.from_repr', a[0], expect=(['some', a[0], 'some', a[0]] if ok else ['none', 'none']),
+                 cls=['from_repr', 'canon-accept' if ok else 'canon-reject'])
+        return rid
+    ctx = _Proxy(ctx, add)
     # reducing constructors over corner list (always) + random fill
     for c, v in vals._SCORNERS + vals._DIGITS:
         ctx.add('sc.mod', to32(v).hex(), expect=E(v), cls=c)
